@@ -120,7 +120,8 @@ def a3(ctx):
     def is_yes_test(node, t) -> bool:
         """t (a test atom at node) is `<...> == "yes"`, directly or through a local name."""
         cands = [t]
-        if isinstance(t, ast.Name):
+        if isinstance(t, (ast.Name, ast.Attribute)):
+            # a local, or a field of a record built from the element's attributes (`options.negate_condition`)
             cands = [o.leaf for o in origins(du, node, t) if o.kind == "expr" and o.leaf is not None and not o.path]
             if not cands:
                 return False
@@ -149,9 +150,13 @@ def a3(ctx):
     obs.append(ctx.ob(neg_ok, tm.qualname, tm.where, "negate-condition=yes negates", "returns `not matches` under == 'yes'",
                       "apply_text_match does not return the negation exactly when negate-condition is 'yes'"))
     defaults = {}
-    for n in walk_local(tm.node):
-        if isinstance(n, ast.Call) and isinstance(n.func, ast.Attribute) and n.func.attr == "get" and dotted(n.func.value) == "el" and len(n.args) == 2:
-            defaults[ctx.P.try_fold(tm.module, n.args[0])] = ctx.P.try_fold(tm.module, n.args[1])
+    for nd_ in cfg.stmt_nodes():
+        mod_ = ctx.module_at(tm, nd_)
+        for n in nd_.calls():
+            if isinstance(n.func, ast.Attribute) and n.func.attr == "get" and len(n.args) == 2:
+                ro = origins(du, nd_, n.func.value)
+                if ro and all(o.kind == "param" and o.name == tm.params[0] for o in ro):
+                    defaults[ctx.P.try_fold(mod_, n.args[0])] = ctx.P.try_fold(mod_, n.args[1])
     obs.append(ctx.ob(defaults.get("match-type") == "contains", tm.qualname, tm.where, "match-type defaults to contains",
                       "default %r" % defaults.get("match-type"), "match-type default is %r, RFC 6352 says 'contains'" % defaults.get("match-type")))
     obs.append(ctx.ob(defaults.get("collation") == "i;ascii-casemap" or defaults.get("collation") == "i;unicode-casemap", tm.qualname, tm.where,
